@@ -12,7 +12,7 @@ PROP = dict(
           "/gomaxprocs, file and internal config keys; literals drawn mostly from the result so that about half the leaves hold; results "
           "with n in {1..6, 31,32,33,63,64,65,96,100} measurements in rescaled and plain units. Non-trivial = the tree has >=2 operators, "
           "mixes a .unit leaf with a whole-result leaf, and the per-measurement outcome is neither all true nor all false. Distinct = "
-          "distinct case JSON. With a fixed-list projection the result is optionally projected (twice) before it is filtered; the filter is asked again after the same Result object received a same-length name with its parts in another order."),
+          "distinct case JSON. With a fixed-list projection the result is optionally projected (twice) before it is filtered; the filter is asked again after the same Result object received a same-length name with its parts in another order; before the first Match is read the filter matches the same measurements in reverse order (and that Match is checked too); one fixed-list case in two has a second fixed list on another key of the same expression; names ending in a dash without digits are in the pool."),
     assumptions=["reference evaluator implements the documented boolean meaning", "Go regexp semantics for /re/ terms"],
     units=[
         R("rapid", "A", "./c06", "TestC06Rapid", (6000, 8), (150000, 16)),
